@@ -37,8 +37,24 @@ pub fn contain() {
         }
     });
 }
+/// second marker: the entry point that is running on the marked case (a fatal signal is attributed to it)
+static API_MARK: std::sync::OnceLock<File> = std::sync::OnceLock::new();
+pub fn mark_api(name: &str, mode: &str, fam: &str) {
+    if let Some(f) = API_MARK.get() {
+        let mut buf = [b' '; 128];
+        let s = format!("{}|{}|{}", name, mode, fam);
+        let n = s.len().min(127);
+        buf[..n].copy_from_slice(&s.as_bytes()[..n]);
+        buf[127] = b'\n';
+        let _ = f.write_at(&buf, 0);
+    }
+}
+
 impl Marker {
     pub fn new(path: Option<&str>) -> Marker {
+        if let Some(p) = path {
+            let _ = API_MARK.set(File::create(format!("{}.api", p)).expect("api marker file"));
+        }
         Marker { f: path.map(|p| File::create(p).expect("marker file")) }
     }
     pub fn set(&self, id: &str) {
